@@ -1,41 +1,288 @@
 """
 Translator plugin for C09 (redirections): constants of /repo that the Redir model is stated over.
 
-  RedirConsts : MIN_INTERNAL_FD (yash-env/src/io.rs), the `dup` arguments `perform` uses for the saved
-                copy (yash-semantics/src/redir.rs: `dup(target_fd, MIN_INTERNAL_FD, FdFlag::CloseOnExec.into())`),
-                and the access/flags `open_normal` passes to `open_file` per operator.
+  RedirConsts :
+    * MIN_INTERNAL_FD (yash-env/src/io.rs) — its *value*, through a small constant-expression evaluator
+      (decimal/hex/octal/binary literals with suffixes, `Fd(…)`, other `const`s of the file, + - * / % << >> | &,
+      parentheses, `as T`), so `Fd(10)`, `Fd(0xA)`, `Fd(RAW)` with `const RAW: RawFd = 5 * 2;` are the same table;
+    * what `move_fd_internal` does (same file), followed through one level of private helper functions:
+      the threshold of its "already internal" test, the minimum and the CLOEXEC flag of its `dup`, and whether
+      the original descriptor is closed also when the dup failed (a `?` on the dup, or no close in the
+      straight-line code after it, means it is not);
+    * the `dup` arguments `perform` uses for the saved copy (yash-semantics/src/redir.rs) and the access/flags
+      `open_normal` passes to `open_file` per operator.
 
-Keyed on item names; fails loudly when an anchor is missing.
+Keyed on item names; fails loudly on anything it cannot classify.
 """
+import ast
 import re
 
 
-def redir_consts(x):
-    io = x.read("yash-env/src/io.rs")
-    m = re.search(r"pub const MIN_INTERNAL_FD\s*:\s*Fd\s*=\s*Fd\((\d+)\)\s*;", io)
-    if not m:
-        x.fail("anchor not found: yash-env/src/io.rs `pub const MIN_INTERNAL_FD: Fd = Fd(N);`")
-    min_fd = int(m.group(1))
+# ------------------------------------------------------------------------------------------------
+# helpers on Rust source text
 
-    redir = x.read("yash-semantics/src/redir.rs")
-    m = re.search(r"async fn perform<S>\s*\(", redir)
+
+def strip_comments(src):
+    out, i, n = [], 0, len(src)
+    while i < n:
+        if src.startswith("//", i):
+            while i < n and src[i] != "\n":
+                i += 1
+        elif src.startswith("/*", i):
+            j = src.find("*/", i + 2)
+            i = n if j < 0 else j + 2
+        elif src[i] == '"':
+            j = i + 1
+            while j < n and src[j] != '"':
+                j += 2 if src[j] == "\\" else 1
+            out.append('""')
+            i = j + 1
+        else:
+            out.append(src[i])
+            i += 1
+    return "".join(out)
+
+
+def matching(src, i, open_c, close_c):
+    """index of the delimiter closing the one at src[i]"""
+    depth = 0
+    for j in range(i, len(src)):
+        if src[j] == open_c:
+            depth += 1
+        elif src[j] == close_c:
+            depth -= 1
+            if depth == 0:
+                return j
+    return -1
+
+
+def functions(src):
+    """name -> (parameter text, body text) of every `fn` of the (comment-free) file"""
+    fns = {}
+    for m in re.finditer(r"\bfn\s+([A-Za-z_][A-Za-z_0-9]*)\s*(?:<[^>{}()]*>)?\s*\(", src):
+        p0 = m.end() - 1
+        p1 = matching(src, p0, "(", ")")
+        if p1 < 0:
+            continue
+        b0 = src.find("{", p1)
+        semi = src.find(";", p1)
+        if b0 < 0 or (0 <= semi < b0):
+            continue
+        b1 = matching(src, b0, "{", "}")
+        if b1 < 0:
+            continue
+        fns.setdefault(m.group(1), (src[p0 + 1:p1], src[b0 + 1:b1]))
+    return fns
+
+
+def consts(src):
+    """name -> initialiser text of every `const NAME: T = expr;`"""
+    return {m.group(1): m.group(2).strip()
+            for m in re.finditer(r"\bconst\s+([A-Z_][A-Z_0-9]*)\s*:\s*[^=;]+=\s*([^;]+);", src)}
+
+
+class Eval:
+    """constant-expression evaluator over the consts of one file"""
+
+    def __init__(self, x, table, where):
+        self.x, self.table, self.where = x, table, where
+
+    def value(self, expr, depth=0):
+        if depth > 8:
+            self.x.fail(f"{self.where}: constant expression nests too deeply: {expr}")
+        e = expr.strip()
+        # Fd(…) wrappers and `as T` casts do not change the number
+        e = re.sub(r"\bFd\s*\(", "(", e)
+        e = re.sub(r"\)\s*\.\s*0\b", ")", e)
+        e = re.sub(r"\bas\s+[A-Za-z_][A-Za-z_0-9:]*", "", e)
+        # integer literals: underscores and type suffixes
+        e = re.sub(r"\b(0x[0-9A-Fa-f_]+|0o[0-7_]+|0b[01_]+|[0-9][0-9_]*)(?:[iu](?:8|16|32|64|128|size))?\b",
+                   lambda m: m.group(1).replace("_", ""), e)
+
+        def ident(m):
+            name = m.group(0).split("::")[-1]
+            if name not in self.table:
+                self.x.fail(f"{self.where}: cannot evaluate `{expr}`: `{m.group(0)}` is not a const of the file")
+            v = self.value(self.table[name], depth + 1)
+            return f"({v})"
+        e = re.sub(r"(?<![0-9A-Za-z_])(?:[A-Za-z_][A-Za-z_0-9]*::)*[A-Z_][A-Z_0-9]*(?![A-Za-z_0-9(])(?!\s*\()", ident, e)
+        e = e.replace("/", "//")
+        try:
+            tree = ast.parse(e, mode="eval")
+        except SyntaxError:
+            self.x.fail(f"{self.where}: cannot evaluate `{expr}` (not a constant expression this translator knows)")
+        ok = (ast.Expression, ast.BinOp, ast.UnaryOp, ast.Constant, ast.Add, ast.Sub, ast.Mult, ast.FloorDiv,
+              ast.Mod, ast.LShift, ast.RShift, ast.BitOr, ast.BitAnd, ast.USub, ast.UAdd)
+        for node in ast.walk(tree):
+            if not isinstance(node, ok) or (isinstance(node, ast.Constant) and not isinstance(node.value, int)):
+                self.x.fail(f"{self.where}: cannot evaluate `{expr}` (unsupported construct)")
+        v = eval(compile(tree, "<const>", "eval"), {"__builtins__": {}})
+        if not isinstance(v, int) or v < 0:
+            self.x.fail(f"{self.where}: `{expr}` does not evaluate to a non-negative integer ({v})")
+        return v
+
+
+def call_args(text, start):
+    """arguments of the call whose `(` is at text[start]; split at top-level commas"""
+    end = matching(text, start, "(", ")")
+    if end < 0:
+        return None, -1
+    inner, args, depth, cur = text[start + 1:end], [], 0, ""
+    for c in inner:
+        if c in "([{<":
+            depth += 1
+        elif c in ")]}>":
+            depth -= 1
+        if c == "," and depth == 0:
+            args.append(cur.strip())
+            cur = ""
+        else:
+            cur += c
+    if cur.strip():
+        args.append(cur.strip())
+    return args, end
+
+
+# ------------------------------------------------------------------------------------------------
+# move_fd_internal
+
+
+def classify_threshold(x, ev, cond, fns, param):
+    """`cond` is the condition under which the descriptor is returned unchanged; value of N in `fd >= N`"""
+    c = cond.strip()
+    while c.startswith("(") and matching(c, 0, "(", ")") == len(c) - 1:
+        c = c[1:-1].strip()
+    v = r"[A-Za-z_][A-Za-z_0-9]*(?:\s*\.\s*0)?"
+    m = re.fullmatch(rf"({v})\s*>=\s*(.+)", c)
+    if m and re.sub(r"\s|\.0", "", m.group(1)) == param:
+        return ev.value(m.group(2))
+    m = re.fullmatch(rf"(.+?)\s*<=\s*({v})", c)
+    if m and re.sub(r"\s|\.0", "", m.group(2)) == param:
+        return ev.value(m.group(1))
+    m = re.fullmatch(rf"({v})\s*>\s*(.+)", c)
+    if m and re.sub(r"\s|\.0", "", m.group(1)) == param:
+        return ev.value(m.group(2)) + 1
+    m = re.fullmatch(rf"!\s*\(\s*({v})\s*<\s*(.+)\)", c)
+    if m and re.sub(r"\s|\.0", "", m.group(1)) == param:
+        return ev.value(m.group(2))
+    return None
+
+
+def move_fd_internal_facts(x, ev, src):
+    fns = functions(src)
+    if "move_fd_internal" not in fns:
+        x.fail("anchor not found: fn move_fd_internal in yash-env/src/io.rs")
+    params, body = fns["move_fd_internal"]
+    pm = re.findall(r"([a-z_][a-z_0-9]*)\s*:\s*Fd\b", params)
+    if len(pm) != 1:
+        x.fail("move_fd_internal: cannot tell which parameter is the descriptor")
+    param = pm[0]
+
+    # --- the "already internal" test: `if COND { return Ok(from) }` or `if COND { Ok(from) } else {…}`
+    m = re.search(r"\bif\s+(.+?)\s*\{\s*(?:return\s+)?Ok\s*\(\s*" + param + r"\s*\)\s*;?\s*\}", body, re.S)
     if not m:
-        x.fail("anchor not found: `async fn perform<S>(` in yash-semantics/src/redir.rs")
-    end = redir.find("\nasync fn ", m.end())
-    fn_text = redir[m.end(): end if end > 0 else len(redir)]
-    d = re.search(r"\.dup\(\s*target_fd\s*,\s*([A-Za-z_0-9:\(\)]+)\s*,\s*([A-Za-z_:\.\(\)]+?)\s*,?\s*\)\s*\{", fn_text)
+        x.fail("move_fd_internal: cannot find the test under which the descriptor is returned unchanged")
+    cond = m.group(1)
+    thr = classify_threshold(x, ev, cond, fns, param)
+    if thr is None:
+        # one level of helper: `name(from)` with `fn name(p: Fd) -> bool { p >= N }`
+        hm = re.fullmatch(r"\s*([a-z_][a-z_0-9]*)\s*\(\s*" + param + r"\s*\)\s*", cond)
+        if hm and hm.group(1) in fns:
+            hp, hb = fns[hm.group(1)]
+            hpm = re.findall(r"([a-z_][a-z_0-9]*)\s*:\s*Fd\b", hp)
+            expr = hb.strip().rstrip(";").strip()
+            expr = re.sub(r"^return\s+", "", expr)
+            if len(hpm) == 1:
+                thr = classify_threshold(x, ev, expr, fns, hpm[0])
+    if thr is None:
+        x.fail(f"move_fd_internal: cannot classify the test `{cond.strip()}` (expected `fd >= CONST` or a helper that is)")
+
+    # --- the function that holds the dup: move_fd_internal itself or one private helper it calls
+    def find_dup(text):
+        m2 = re.search(r"\.\s*dup\s*\(", text)
+        return m2.end() - 1 if m2 else -1
+
+    holder, hparam, hbody = "move_fd_internal", param, body
+    if find_dup(body) < 0:
+        cands = [n for n in re.findall(r"\b([a-z_][a-z_0-9]*)\s*\(", body)
+                 if n in fns and n != "move_fd_internal" and find_dup(fns[n][1]) >= 0]
+        if len(set(cands)) != 1:
+            x.fail("move_fd_internal: no `.dup(` in it nor in exactly one helper function of the file that it calls")
+        holder = cands[0]
+        hp, hbody = fns[holder]
+        hpm = re.findall(r"([a-z_][a-z_0-9]*)\s*:\s*Fd\b", hp)
+        if len(hpm) != 1:
+            x.fail(f"{holder}: cannot tell which parameter is the descriptor")
+        hparam = hpm[0]
+    k = find_dup(hbody)
+    args, end = call_args(hbody, k)
+    if args is None or len(args) != 3 or re.sub(r"\s", "", args[0]) != hparam:
+        x.fail(f"{holder}: cannot read the arguments of `.dup(…)` (expected (descriptor, minimum, flags))")
+    move_min = ev.value(args[1])
+    if "CloseOnExec" in args[2]:
+        move_cloexec = True
+    elif re.search(r"empty\s*\(\s*\)|EMPTY|default\s*\(\s*\)", args[2]):
+        move_cloexec = False
+    else:
+        x.fail(f"{holder}: cannot classify the flags of the dup: `{args[2]}`")
+    # --- is the original closed also when the dup failed?
+    rest = hbody[end + 1:]
+    propagates = re.match(r"\s*\?", rest) is not None
+    # statements at the nesting depth of the dup after it
+    depth, flat = 0, ""
+    for c in rest:
+        if c == "{":
+            depth += 1
+        elif c == "}":
+            depth -= 1
+            if depth < 0:
+                break
+        elif depth == 0:
+            flat += c
+    closes_flat = re.search(r"\.\s*close\s*\(\s*" + hparam + r"\s*\)", flat) is not None
+    closes_any = re.search(r"\.\s*close\s*\(\s*" + hparam + r"\s*\)", rest) is not None
+    if not closes_any:
+        x.fail(f"{holder}: the original descriptor is never closed after the dup — not a move")
+    closes_on_failure = closes_flat and not propagates
+    if closes_any and not closes_flat and not propagates:
+        x.fail(f"{holder}: the close of the original is conditional in a way this translator cannot classify")
+    return thr, move_min, move_cloexec, closes_on_failure
+
+
+# ------------------------------------------------------------------------------------------------
+
+
+def redir_consts(x):
+    io = strip_comments(x.read("yash-env/src/io.rs"))
+    table = consts(io)
+    ev = Eval(x, table, "yash-env/src/io.rs")
+    if "MIN_INTERNAL_FD" not in table:
+        x.fail("anchor not found: yash-env/src/io.rs `const MIN_INTERNAL_FD: Fd = …;`")
+    min_fd = ev.value(table["MIN_INTERNAL_FD"])
+    thr, move_min, move_cloexec, closes_on_failure = move_fd_internal_facts(x, ev, io)
+
+    redir = strip_comments(x.read("yash-semantics/src/redir.rs"))
+    fns = functions(redir)
+    if "perform" not in fns:
+        x.fail("anchor not found: fn perform in yash-semantics/src/redir.rs")
+    body = fns["perform"][1]
+    d = re.search(r"\.\s*dup\s*\(", body)
     if not d:
         x.fail("anchor not found: `.dup(target_fd, <min>, <flags>)` in fn perform of yash-semantics/src/redir.rs")
-    if d.group(1).split("::")[-1] == "MIN_INTERNAL_FD":
-        save_min = min_fd
+    args, _ = call_args(body, d.end() - 1)
+    if args is None or len(args) != 3:
+        x.fail("fn perform: cannot read the arguments of `.dup(…)`")
+    rtable = dict(consts(redir))
+    rtable.setdefault("MIN_INTERNAL_FD", str(min_fd))     # imported from yash_env::io
+    save_min = Eval(x, rtable, "yash-semantics/src/redir.rs").value(args[1])
+    if "CloseOnExec" in args[2]:
+        save_cloexec = True
+    elif re.search(r"empty\s*\(\s*\)|EMPTY|default\s*\(\s*\)", args[2]):
+        save_cloexec = False
     else:
-        m2 = re.fullmatch(r"Fd\((\d+)\)", d.group(1))
-        if not m2:
-            x.fail(f"cannot interpret the minimum descriptor of the saved copy: {d.group(1)}")
-        save_min = int(m2.group(1))
-    save_cloexec = "CloseOnExec" in d.group(2)
+        x.fail(f"fn perform: cannot classify the flags of the saving dup: `{args[2]}`")
 
-    k = redir.find("async fn open_normal")
+    k = redir.find("fn open_normal")
     if k < 0:
         x.fail("anchor not found: fn open_normal in yash-semantics/src/redir.rs")
     on = x.item_body(redir[k:], r"match operator", "match operator in fn open_normal")
@@ -64,6 +311,14 @@ def redir_consts(x):
         f"def saveMin : Nat := {save_min}",
         "/-- does `perform` ask for CLOEXEC on the saved copy -/",
         f"def saveCloexec : Bool := {b(save_cloexec)}",
+        "/-- `move_fd_internal`: a descriptor at or above this is returned unchanged -/",
+        f"def moveThreshold : Nat := {thr}",
+        "/-- `move_fd_internal`: minimum of its `dup` -/",
+        f"def moveMin : Nat := {move_min}",
+        "/-- `move_fd_internal`: does its `dup` ask for CLOEXEC -/",
+        f"def moveCloexec : Bool := {b(move_cloexec)}",
+        "/-- `move_fd_internal`: is the original closed also when the `dup` failed -/",
+        f"def moveClosesOnFailure : Bool := {b(closes_on_failure)}",
         "",
         "inductive Acc where | ro | wo | rw deriving DecidableEq, Repr",
         "/-- (access, create, truncate, append, exclusive) that `open_normal` passes to `open_file` -/",
